@@ -265,6 +265,21 @@ def gen(rng, tier):
     for mk in (100000, 70000, 40000):
         cases.append("writer E g0 30000 9000 E g1 30000 9000 E p2 30000 9000 E g3 30000 9000 E o4 30000 9000 "
                      "S 65536 %d 0 0 snap e100 snap e30000 snap e30000 snap e60000 snap" % mk)
+    # keep-age 60 s, expired files of an earlier run, total far under max_keep, small NON-rotating events,
+    # snapshot after each: the purge by age must happen at every event, not only when a file is rotated
+    for mw, mk in [(64 * KIB, 640 * KIB), (128 * KIB, 1280 * KIB), (1024 * KIB, 10240 * KIB)]:
+        ents = []
+        for i in range(rng.randint(2, 5)):
+            ents += ["E", "%s%d" % (rng.choice("ggpq"), i), str(rng.choice([100, 5000, 30000])),
+                     str(rng.choice([130000, 200000, 900000, 7200000]) + 37 * i)]
+        ents += ["E", "g7", "300", "20000", "E", "o8", "100", "7200000"]
+        evs = []
+        for _ in range(rng.randint(3, 6)):
+            evs += ["e%d" % rng.randint(MIN_EV, 2000), "snap"]
+        cases.append("writer " + " ".join(ents) + " S %d %d 60 0 snap " % (mw, mk) + " ".join(evs))
+        # the same after a restart: the files of the first run are stamped 130 s / 300 s old
+        cases.append("writer S %d %d 60 0 e5000 e%d e3000 X %d S %d %d 60 0 snap " % (mw, mk, min(mw - 100, 66000), rng.choice([130000, 300000]), mw, mk)
+                     + " ".join(evs))
     # keep-age: old pre-existing files go at the first event, young ones stay
     cases.append("writer E g0 100 7200000 E g1 100 130000 E g2 100 20000 E p3 100 200000 E o4 100 7200000 S 65536 655360 60 0 snap e100 snap e100 snap")
     # long streams
